@@ -380,7 +380,34 @@ def op_twin(sim: Sim, a) -> str:
                                   f"{method} at [{r},{c}] grew the table to {tb.num_rows}x{tb.num_cols}, exactly {t0.nrows}x{t0.ncols} is required")
             sim.probe("twin_grow_" + method)
         _compare_twins(sim, tables[0], tables[1], r, c, method)
+        if method == "set_cell_border" and not t0.merges:
+            _border_landed(sim, tables, r, c, a.get("variant"), t0)
     return "ok_grew" if grew else "ok"
+
+
+def _border_landed(sim: Sim, tables, r, c, variant, tm) -> None:
+    """C11.acts_on_addressed_cell: a stroke just drawn is the most recent one on its edge, so the ADDRESSED cell (and the
+    cells the stroke runs along) must report exactly that border on that side - in both twins."""
+    side, length = border_variant(variant, r, c, tm.nrows, tm.ncols)
+    sides = side if isinstance(side, list) else [side]
+    v = variant or 0
+    from numbers_parser import RGB, Border
+
+    wb = Border([1.0, 2.0, 0.5][v % 3], RGB(0, 0, v % 200), ["solid", "dashes", "dots"][v % 3]) if variant is not None else Border(1.0, RGB(0, 0, 0), "solid")
+    want = (wb.width, tuple(wb.color), int(wb.style))
+    for which, table in enumerate([tables[0], tables[1]]):
+        data = table.rows()
+        for sd in sides:
+            for k in range(length or 1):
+                rr, cc = (r, c + k) if sd in ("top", "bottom") else (r + k, c)
+                if rr >= len(data) or cc >= len(data[rr]):
+                    continue
+                b = getattr(data[rr][cc].border, sd)
+                got = None if b is None else (b.width, tuple(b.color), int(b.style))
+                # a list of sides is applied in order: a later side of the same call cannot overwrite an earlier one
+                if got != want:
+                    sim.violation("C11.acts_on_addressed_cell", {"method": "set_cell_border", "form": "rc" if which == 0 else "a1"},
+                                  f"set_cell_border at [{r},{c}] side {sd!r} length {length}: cell [{rr},{cc}] of twin {which} reports {got} on that side, expected {want}")
 
 
 def _cell_look(cell):
